@@ -45,7 +45,61 @@ fn smt(i: u32, out: &mut String, rounds: &mut Vec<u32>) {
     }
 }
 
+fn query_for(layout: &[NormalizedLocation], axes: Vec<Tag>, rounding: RoundingBehaviour, out: &mut String) -> usize {
+    let model = VariationModel::new(layout.iter().cloned().collect::<HashSet<_>>(), axes);
+    ARENA.with(|a| a.borrow_mut().truncate(1));
+    let mut pts: HashMap<NormalizedLocation, Vec<Sym>> = HashMap::new();
+    for (i, l) in layout.iter().enumerate() { pts.insert(l.clone(), vec![mk(Node::Var(i))]); }
+    let deltas = model.deltas_with_rounding::<Sym, Sym>(&pts, rounding).unwrap();
+    out.push_str("(push 1)\n");
+    for i in 0..layout.len() { out.push_str(&format!("(declare-const v{i} Real)\n")); }
+    let mut bad = Vec::new();
+    let mut all_rounds = Vec::new();
+    for (j, l) in layout.iter().enumerate() {
+        let back = model.interpolate_from_deltas(l, &deltas);
+        let mut e = String::new();
+        let mut rounds = Vec::new();
+        smt(back[0].0, &mut e, &mut rounds);
+        let active: f64 = deltas.iter().map(|(r, _)| r.scalar_at(l).into_inner()).sum();
+        let bound = match rounding { RoundingBehaviour::None => 1e-9, _ => 0.5 * active + 1e-9 };
+        bad.push(format!("(> (ite (>= (- {e} v{j}) 0.0) (- {e} v{j}) (- v{j} {e})) {bound:.12})"));
+        all_rounds.extend(rounds);
+    }
+    all_rounds.sort(); all_rounds.dedup();
+    for r in &all_rounds { out.push_str(&format!("(declare-const e{r} Real)\n(assert (and (<= (- 0.5) e{r}) (<= e{r} 0.5)))\n")); }
+    out.push_str(&format!("(assert (or {}))\n(check-sat)\n(pop 1)\n", bad.join(" ")));
+    deltas.len()
+}
+
+fn batch() {
+    let wght = Tag::new(b"wght");
+    let wdth = Tag::new(b"wdth");
+    let mut q = String::from("(set-logic QF_LRA)\n");
+    let mut n = 0usize;
+    // 1 axis, k/4 grid, m <= 3 non-default masters
+    let grid1: Vec<f64> = (-4..=4).filter(|k| *k != 0).map(|k| k as f64 / 4.0).collect();
+    let l1 = |a: f64| -> NormalizedLocation { vec![(wght, NormalizedCoord::new(a))].into() };
+    for i in 0..grid1.len() { for j in i..grid1.len() { for k in j..grid1.len() {
+        let mut lay = vec![l1(0.0), l1(grid1[i])];
+        if j > i { lay.push(l1(grid1[j])); }
+        if k > j { lay.push(l1(grid1[k])); }
+        for r in [RoundingBehaviour::None, RoundingBehaviour::RoundTiesEven] { query_for(&lay, vec![wght], r, &mut q); n += 1; }
+    } } }
+    // 2 axes, k/2 grid, m <= 2 non-default masters
+    let mut pts2 = Vec::new();
+    for a in -2..=2 { for b in -2..=2 { if a != 0 || b != 0 { pts2.push((a as f64 / 2.0, b as f64 / 2.0)); } } }
+    let l2 = |p: (f64, f64)| -> NormalizedLocation { vec![(wght, NormalizedCoord::new(p.0)), (wdth, NormalizedCoord::new(p.1))].into() };
+    for i in 0..pts2.len() { for j in i..pts2.len() {
+        let mut lay = vec![l2((0.0, 0.0)), l2(pts2[i])];
+        if j > i { lay.push(l2(pts2[j])); }
+        for r in [RoundingBehaviour::None, RoundingBehaviour::RoundTiesEven] { query_for(&lay, vec![wght, wdth], r, &mut q); n += 1; }
+    } }
+    std::fs::write("/tmp/probe/sv1_batch.smt2", &q).unwrap();
+    println!("batch: {n} queries, {} bytes", q.len());
+}
+
 fn main() {
+    if std::env::args().nth(1).as_deref() == Some("batch") { batch(); return; }
     let wght = Tag::new(b"wght");
     let wdth = Tag::new(b"wdth");
     let loc = |a: f64, b: f64| -> NormalizedLocation { vec![(wght, NormalizedCoord::new(a)), (wdth, NormalizedCoord::new(b))].into() };
